@@ -3,7 +3,7 @@
 import json, os
 V = os.path.dirname(os.path.dirname(os.path.abspath(__file__)))
 props = [json.loads(l) for l in open(os.path.join(V, "properties.jsonl"))]
-REPO_HOOKS = ["7e029ae", "0df1db7"]  # commits in /repo that add guarded hooks
+REPO_HOOKS = ["7e029ae", "0df1db7", "8132497", "16e39b1", "e144ece", "649bab8"]  # commits in /repo that add guarded hooks
 
 CHECKS = {
  "C20": dict(
@@ -22,7 +22,7 @@ CHECKS = {
         "11 critical bytes, every keyword in 7 spellings, seeded long strings and the repository's .ddp files is validated token by token by TLC "
         "(ScannerTrace.tla) against the state machine and against the partition invariants (literal = source substring at the reported positions, order, "
         "blanks-only gaps, single final EOF).",
-   note="Exhaustive only up to the stated lengths (3 full alphabet / 5 focused alphabets quick; 4 / 6-7 thorough). The keyword table is a committed "
+   note="Exhaustive only up to the stated lengths (3 full alphabet / 5 focused alphabets quick; 4 / 6-7 thorough; 4 / 5 over code points that Unicode counts as white space but DDP does not, next to real blanks). The keyword table is a committed "
         "snapshot (spec/scanner/Keywords.tla). Capitalisation and alias-parameter complaints are not modelled. Positions after a line feed inside an alias "
         "placeholder are left unspecified.",
    technique="TLA+ scanner state machine + TLC trace validation of real scanner output over exhaustively enumerated inputs",
@@ -32,7 +32,7 @@ CHECKS = {
         "definitions; TLC checks the laws (reflexive, symmetric, transitive on all triples, alias transparency under every constructor, opacity of definitions, "
         "congruence of Assignable) on every pair of the universe; ddptypes.Equal on really constructed types for every ordered pair, and acceptance by parser.Parse "
         "of initialisation / assignment / cast / argument / return for every ordered (target, value) pair of the DDP-expressible universe are validated by a TLA+ trace specification.",
-   note="Universe: closure of {6 primitives, Variable, 2 Kombinationen} under list/alias/definition to depth 2 plus lists of named depth-2 types (quick; positions for all base "
+   note="Positions now include conversions in a reference context (assignment target `x als T`, Referenz argument): DDPTypes!RefCastOK. Universe: closure of {6 primitives, Variable, 2 Kombinationen} under list/alias/definition to depth 2 plus lists of named depth-2 types (quick; positions for all base "
         "targets + 40 seed-chosen others) / depth 3 (thorough; positions for all expressible depth-2 targets). Nested list types are not writable in DDP source. Casts are compared only where a definition is involved.",
    technique="TLA+ type algebra + TLC law checking + TLC trace validation of real predicates and real frontend verdicts",
    ref="§4 C14"),
@@ -53,7 +53,7 @@ CHECKS = {
    text="The partial operations of DDPSem (indexing for reading, as assignment target and as Referenz argument, nested indexing, the three slice forms with clamping, Variable "
         "conversions, '...') define which cases end in a Laufzeitfehler; every (length, index) pair incl. 64-bit extremes x element type x access form is compiled and run, and TLC "
         "checks in both directions: out of domain => 'Laufzeitfehler' on stderr and exit status 1 with the output so far; in domain => no error and the right value.",
-   note="Lengths 0..3 (quick) / 0..4 (thorough), -O1 (quick) / all levels (thorough). Cases expected to fail run one process per case through a forking driver linked in place of "
+   note="Incl. index expressions that change the length of the indexed (global) list. Lengths 0..3 (quick) / 0..4 (thorough), -O1 (quick) / all levels (thorough). Cases expected to fail run one process per case through a forking driver linked in place of "
         "main.o (same init/top-level/end sequence); a seeded sample also runs as stand-alone executables.",
    technique="TLA+ executable semantics (domain predicates) + TLC trace validation of compiled-program observations",
    ref="§4 C06"),
@@ -61,7 +61,7 @@ CHECKS = {
    text="DDPSem is value-semantic by construction: the store maps locations to values and only Referenz bindings alias. The copy-introducing construct x mutation form x "
         "non-primitive type matrix (plus Referenz aliasing of variable/element/field, the same variable by value and by Referenz, globals touched by the callee, for-each over a "
         "mutated source) is compiled at -O0/-O1/-O2 and TLC validates every run against the semantics.",
-   note="Bounded to the enumerated matrix. Two genuine -O2 violations (copy elision) are recorded as known findings.",
+   note="Bounded to the enumerated matrix (incl. the frame family: assignments whose right-hand side concatenates / slices the holders, the target among them, every holder printed afterwards). Two genuine -O2 violations (copy elision) are recorded as known findings.",
    technique="TLA+ executable semantics + TLC trace validation of compiled-program observations at all optimisation levels",
    ref="§4 C08"),
  "C12": dict(
@@ -140,7 +140,7 @@ CHECKS = {
         "a negated alias yields the negation; without a type-matching alias the call is diagnosed. Populations of 1-3 functions over 7 patterns x 10 parameter typings (declaration "
         "order shuffled, every third with an imported function) and call sites for every pattern shape in 8 argument forms (literal, negative literal, group, name, parenthesised name, list element, field, character of a Text) are parsed by the real frontend; callee, binding and "
         "negation wrapper read from the AST are validated by TLC. Operator overloads (exact operand types, else built in) are checked on a fixed program.",
-   note="Bounded to the vocabulary {foo, bar, mit, nicht, <a>, <b>} and parameter types Zahl/Text/Buchstabe/type parameter. Where the rule leaves a tie the specification accepts any tied alias.",
+   note="Bounded to the vocabulary {foo, bar, mit, nicht, <a>, <b>} (with a variable named `bar`: where it stands it is the word AND a possible argument) and parameter types Zahl/Text/Buchstabe/type parameter. Where the rule leaves a tie the specification accepts any tied alias.",
    technique="TLA+ resolution rule + TLC trace validation of the real parser's AST over enumerated alias populations and call sites",
    ref="§4 C09"),
  "C10": dict(
@@ -149,7 +149,7 @@ CHECKS = {
         "imports', and visibility (exactly the public names, exactly the listed ones for selective imports, never names the target only imported). All import graphs on <=3 modules "
         "in every textual import order, cyclic arrangements incl. the main module, a seeded sample of 4-module graphs, each with whole-module and selective imports, and arrangements with a directory import (in the main module, in an imported module, both) are materialised; "
         "the frontend's verdict, the run-time order of initialiser side effects and main statements, and per-name visibility probes are validated by TLC.",
-   note="Every module follows one declaration scheme (same-named private function, public variable with an effectful initialiser, private variable, public function, a top-level "
+   note="Also: imports that do not stand at the top level (function body, loop body: the initialiser must run at most once - two known findings), cycles closed by a directory import (with and without use of the imported names), private types reachable from public ones. Every module follows one declaration scheme (same-named private function, public variable with an effectful initialiser, private variable, public function, a top-level "
         "print). A directory import means the whole-module import of each module of the directory in name order.",
    technique="TLA+ module-loading/initialisation/visibility specification + TLC trace validation of frontend verdicts and compiled-program output",
    ref="§4 C10"),
@@ -157,9 +157,13 @@ CHECKS = {
    text="Every generated program exists in four variants: generic functions declared once and called at several types (G), one textually specialised function per instantiation (S), "
         "and both with the functions in an imported module (Glib, Slib). All four, at the tier's -O levels, are validated by TLC against DDPSem's evaluation of the SPECIALISED "
         "program, so generic = specialised = specification. Well-typedness of generic calls (one binding per type parameter, aliases transparent, definitions opaque) for all "
-        "argument-type tuples of 5 signatures, and identity of generic-Kombination instantiations for 625 pairs of type-argument tuples, are validated against Generics.tla.",
-   note="11 templates x 7 argument types; call-site scope leakage is only exercised through the library variants (no same-named types in the importing module yet).",
-   technique="TLA+ executable semantics of the specialised program + unification specification, TLC trace validation of both program variants",
+        "argument-type tuples of 5 signatures, and identity of generic-Kombination instantiations for 625 pairs of type-argument tuples, are validated against Generics.tla. "
+        "GenericsCache.tla states the cache of instantiations (per generic function and module a list of keys; Hit / New / Done, a failed instantiation is removed again, nothing else "
+        "changes a list); hook H4 reports every step with the list the implementation holds afterwards, and GenericsCacheTrace validates the steps recorded while the real frontend parses "
+        "the generic programs, the repository's generic tests, a failing variant of every generic function (also failing only for some bindings of the type parameter) and seeded mutants.",
+   note="23 templates (incl. two generic functions behind one alias, a function that instantiates itself with another type) x 7 argument types; instantiations of extern generic functions "
+        "are outside the cache contract (the model adopts the implementation's list).",
+   technique="TLA+ executable semantics of the specialised program + unification specification + implementation-shaped cache model (hook H4), TLC trace validation",
    ref="§4 C15"),
  "C16": dict(
    text="Determinism.tla makes the choice points explicit: the iteration order of a module's public-declaration map followed by the position sort with its comparator and Go's insertion "
@@ -167,14 +171,14 @@ CHECKS = {
         "the pinned comparator 'line< or column<', none for the lexicographic one). Each such population is materialised (module + importer with clashing names) and, like all seed "
         "programs, import arrangements and a seeded sample of mutants, compiled N times in one process and K times in fresh processes; TLC validates that all observations (verdict, "
         "diagnostics in order with texts, resolved calls, module flags; exit status, stderr, behaviour of the executable) are equal and that the first reported clash is the first in source order.",
-   note="Go cannot be told which map order to use, so repetition samples the orders (N = 20 / K = 6 quick, 200 / 30 thorough). The text of the emitted IR is not compared (only behaviour).",
+   note="Includes a program with generic functions of two and three type parameters instantiated with every arrangement of types that share one representation. Go cannot be told which map order to use, so repetition samples the orders (N = 20 / K = 6 quick, 200 / 30 thorough). The text of the emitted IR is not compared (only behaviour).",
    technique="TLA+ model of the nondeterministic choice points checked by TLC over all orders + TLC trace validation of repeated real compilations",
    ref="§4 C16"),
  "C17": dict(
    text="Every covered Duden function (117 call forms over Listen, Texte, Sortierung, Mathe, Zahlen, Statistik, Zeichen: value and Referenz variants) is called from generated driver programs with every combination of an argument "
         "vocabulary (lists of length 0..4 over Zahl/Text/Buchstabe, texts with multi-byte characters, indices and counts -1..7; seeded sample per function when the product is large), one "
         "process per call; result, arguments afterwards and failure are one event each, validated by TLC against DudenSeq.tla (sequence operations, documented-domain guards).",
-   note="Kommazahl-valued functions (most of Mathe, Statistik, Zahlen) are not covered; calls run inside the module's top level (imported globals alive), one process each; 'sorted' is checked as sorted permutation, 'compare' by sign; outside the documented "
+   note="Sorting also on lists of 17 / 60 / 200 elements in structured orders (ascending, descending, organ pipe, saw tooth, many equal keys, a median-of-three adversary, random). Kommazahl-valued functions (most of Mathe, Statistik, Zahlen) are not covered; calls run inside the module's top level (imported globals alive), one process each; 'sorted' is checked as sorted permutation, 'compare' by sign; outside the documented "
         "domain nothing is compared.",
    technique="TLA+ specification of the functions as sequence operations + TLC trace validation of calls made by compiled driver programs",
    ref="§4 C17"),
@@ -183,7 +187,7 @@ CHECKS = {
         "a seeded sample of arity 3..6); the harness writes the C callee against exactly that prototype and the tree's headers. Callee observations (what it saw through the header structs), "
         "the result and the caller's variables afterwards are one event per call (variables and temporaries as arguments, declaring and importing module, -O0/-O2, +-O1 thorough) validated by TLC "
         "against FFI!Expected; the allocation ledger of whole driver runs is validated against Heap.tla (each argument released exactly once by the caller, results owned by the caller).",
-   note="Kinds: Zahl, Kommazahl, Byte, Wahrheitswert, Buchstabe, Text, Zahlen Liste, Text Liste, a Kombination with padding, Variable holding Zahl / Text. No Byte/Kommazahl/Variable lists, no generic externs.",
+   note="Kinds: Zahl, Kommazahl, Byte, Wahrheitswert, Buchstabe, Text, Zahlen Liste, Text Liste, a Kombination with padding, Variable holding Zahl / Text. No Byte/Kommazahl/Variable lists, no generic externs. A by-value Zahl argument behind a non-primitive by-value argument may itself be the result of another extern call (24 / all such cases).",
    technique="TLA+ specification of the calling convention (prototype, visible effects, ownership) + TLC trace validation of generated C callees and DDP callers + ledger validation",
    ref="§4 C18"),
  "C04": dict(
